@@ -355,7 +355,7 @@ func dischargeBounds(c *Ctx, s partialSite) (bool, string) {
 	}
 	// frozen reason table
 	for _, e := range partialReasons {
-		if e.fn == shortFn(fn) && e.expr == s.Expr {
+		if e.fn == shortFn(fn) && (e.expr == "" || e.expr == s.Expr) {
 			if ok, why := e.requires(c, s); ok {
 				return true, e.reason
 			} else {
@@ -460,8 +460,8 @@ type reasonEntry struct {
 
 // partialReasons: one named function + construct per entry, with a machine-checked condition.
 var partialReasons = []reasonEntry{
-	{"cmd/rdpgw/protocol.DecodeUTF16", "b[i]", "loop i < len(b) step 2 over an even-length slice", requiresEvenLengthLoop},
-	{"cmd/rdpgw/protocol.DecodeUTF16", "b[i + 1]", "i+1 < len(b): loop i < len(b) step 2 and len(b) even (odd lengths return before the loop)", requiresEvenLengthLoop},
+	// matched by function and by the structural condition (not by the spelling of the index)
+	{"cmd/rdpgw/protocol.DecodeUTF16", "", "index i or i+1 with i < len(b), step 2, over an even-length slice (odd lengths return before the loop)", requiresEvenLengthLoop},
 }
 
 // requiresEvenLengthLoop: the function returns when len(b)%2 != 0 before any indexing,
